@@ -23,11 +23,6 @@ def sub_arr(t, *args):
     return [sympy.sympify(v).subs(*args) for v in arr(t)]
 
 
-LAMBDIFY_NDARRAY = ('sympy.lambdify of a numpy object array raises TypeError in the installed sympy 1.14 '
-                    '(external library; discopy 0.3.5 passes self.data / self.array, an ndarray): the function under '
-                    'contract cannot return in this environment, so nothing can be stated about its result')
-
-
 def evaluates_to_numbers(b):
     try:
         ev = b.eval(mixed=bool(getattr(b, 'is_mixed', False))) if hasattr(b, 'is_mixed') else b.eval()
@@ -70,13 +65,7 @@ def run(tier):
                    functions=['cat.Box.__init__'])
         suite.fact('%s.subs.numbers_evaluate' % name, evaluates_to_numbers(sub),
                    what='after substituting every symbol the box evaluates to numbers', functions=fq)
-        try:
-            lam = b.lambdify(x, y)(0.125, 0.5)
-        except TypeError as e:
-            if 'Classical' in name and 'cannot be interpreted as an integer' in str(e):
-                suite.skip('%s.lambdify' % name, LAMBDIFY_NDARRAY)
-                continue
-            raise
+        lam = b.lambdify(x, y)(0.125, 0.5)
         suite.fact('%s.lambdify.structure' % name, flags(lam) == flags(b),
                    what='lambdify keeps kind, dom, cod, mixedness, dagger flag: %r -> %r' % (flags(b), flags(lam)),
                    functions=[fq[0].replace('subs', 'lambdify')])
@@ -101,6 +90,35 @@ def run(tier):
         lz, sz = zd.lambdify(x, y)(0.25, 0.5), zd.subs([(x, 0.25), (y, 0.5)])
         suite.fact('zx.Diagram.lambdify==subs', lz == sz and not lz.free_symbols, functions=['monoidal.Diagram.lambdify'],
                    what='a lambdified ZX diagram called on values is the substituted diagram')
+    # lambdify of scalars with non-polynomial expressions and complex values; the user's keyword arguments reach sympy
+    for nm, sc_, val in (('exp(I*x)', scalar(sympy.exp(sympy.I * x)), 0.3), ('dagger of x', scalar(x).dagger(), 0.5j),
+                         ('cos(x)', scalar(sympy.cos(x), is_mixed=True), 0.5j)):
+        with suite.guard('scalar[%s].lambdify' % nm, ['quantum.gates.Scalar.lambdify']):
+            lam, sub = sc_.lambdify(x)(val), sc_.subs(x, val)
+            suite.identity('scalar[%s].lambdify==subs' % nm, arr(lam), arr(sub), functions=['quantum.gates.Scalar.lambdify'],
+                           what='lambdified scalar called on %r equals the substituted scalar' % (val,))
+    with suite.guard('Rz.lambdify(kwargs)', ['quantum.gates.Parametrized.lambdify']):
+        suite.fact('Rz.lambdify(modules=numpy)==subs', Rz(x + 1).lambdify(x, modules='numpy')(0.25) == Rz(1.25),
+                   functions=['quantum.gates.Parametrized.lambdify'])
+    # classical gates: lambdify == subs, and gates without parameters keep their kind
+    with suite.guard('ClassicalGate.lambdify', ['quantum.gates.ClassicalGate.lambdify']):
+        cg = ClassicalGate('f', 1, 1, [x, 1 - x, y, 1 - y])
+        suite.identity('ClassicalGate.lambdify==subs', arr(cg.lambdify(x, y)(0.25, 0.5)), arr(cg.subs([(x, 0.25), (y, 0.5)])),
+                       functions=['quantum.gates.ClassicalGate.lambdify'])
+        cc = (gates.Copy() >> ClassicalGate('g', 2, 1, [x, 1, 1, x, 0, 1, 1, 0]))
+        suite.identity('circuit[Copy >> gate].lambdify==subs', arr(cc.lambdify(x)(0.5).eval(mixed=True)),
+                       arr(cc.subs(x, 0.5).eval(mixed=True)), functions=['quantum.gates.ClassicalGate.lambdify'])
+    suite.fact('Copy.subs keeps its kind', type(gates.Copy().subs(x, 1)) is gates.Copy and type(gates.Match().subs(x, 1)) is gates.Match
+               and gates.Copy().subs(x, 1).dagger() == gates.Match(), functions=['quantum.gates.ClassicalGate.subs'],
+               what='substitution keeps the kind of boxes without parameters')
+    # numpy arrays as box data
+    with suite.guard('tensor.Box(numpy data).subs', ['cat.rmap']):
+        nbx = tensor.Box('v', Dim(1), Dim(2), numpy.array([x, 2 * y], dtype=object))
+        suite.identity('tensor.Box(numpy data).subs.commutes', arr(nbx.subs([(x, 1), (y, 2)]).eval()),
+                       sub_arr(nbx.eval(), [(x, 1), (y, 2)]), functions=['cat.rmap', 'cat.Box.subs'],
+                       what='a numpy array of expressions as data is substituted entrywise')
+        suite.identity('tensor.Box(numpy data).subs.partial', arr(nbx.subs(x, z).eval()), sub_arr(nbx.eval(), x, z), extra=(x, y, z),
+                       functions=['cat.rmap'])
     # parameter-free classical states next to symbolic boxes
     with suite.guard('circuit[Bits >> ClassicalGate].subs', ['quantum.gates.Digits.subs']):
         cb = Bits(0, 1) >> ClassicalGate('f', 2, 1, [x, 1 - x, y, 1 - y, 1, 0, 0, 1])
@@ -118,13 +136,9 @@ def run(tier):
     t = Tensor(Dim(2), Dim(2), [x, y, x * y, 1])
     suite.identity('Tensor.subs.elementwise', arr(t.subs(x, z)), sub_arr(t, x, z), extra=(x, y, z),
                    functions=['tensor.Tensor.subs'])
-    try:
+    with suite.guard('Tensor.lambdify', ['tensor.Tensor.lambdify']):
         suite.identity('Tensor.lambdify==subs', arr(t.lambdify(x, y)(2, 3)), arr(t.subs([(x, 2), (y, 3)])),
                        functions=['tensor.Tensor.lambdify'])
-    except TypeError as e:
-        if 'cannot be interpreted as an integer' not in str(e):
-            raise
-        suite.skip('Tensor.lambdify', LAMBDIFY_NDARRAY)
     nested = cat.Box('n', cat.Ob('a'), cat.Ob('b'), data={'k': [x + 1, (y, {'d': z})], 'j': 3})
     suite.fact('cat.Box.free_symbols.nested', nested.free_symbols == {x, y, z},
                what='free symbols through mappings / iterables', functions=['cat.Box.__init__'])
